@@ -379,16 +379,18 @@ func c26Precondition(e Expr, opts Options, rejected bool) string {
 		return "nan-duration"
 	case gateHole && rejected:
 		return "duration-expr-gate-hole"
+	case extent && rejected: // a truncated literal alone never makes the printed form unparsable
+		return "offset-duration-expr-extent"
+	case trunc:
+		return "duration-literal-float-truncation"
+	case subms:
+		return "duration-not-ms-representable"
 	case extent:
 		return "offset-duration-expr-extent"
 	case uplus:
 		return "duration-expr-unary-plus"
 	case inf:
 		return "inf-literal"
-	case trunc:
-		return "duration-literal-float-truncation"
-	case subms:
-		return "duration-not-ms-representable"
 	case gateHole:
 		return "duration-expr-gate-hole"
 	}
